@@ -195,8 +195,34 @@ def dbl_bits(x):
     return struct.unpack("<Q", struct.pack("<d", x))[0]
 
 
+class Missing(dict):
+    """facts that could not be extracted: name -> reason"""
+
+
 def extract(repo):
+    """returns (facts, missing).  A fact whose pattern is not found is reported in `missing` instead of
+    aborting everything, so that only the properties that depend on it are affected."""
     facts = {}
+    missing = Missing()
+
+    def attempt(names, fn):
+        try:
+            out = fn()
+        except ExtractError as exc:
+            for nm in names:
+                missing[nm] = str(exc)
+            return
+        if len(names) == 1:
+            facts[names[0]] = out
+        else:
+            for nm, v in zip(names, out):
+                facts[nm] = v
+
+    _extract_into(repo, facts, attempt)
+    return facts, missing
+
+
+def _extract_into(repo, facts, attempt):
     consts = module_constants(_parse(repo, "probables/constants.py"))
     for py, lean in [
         ("INT32_T_MIN", "int32Min"),
@@ -212,13 +238,14 @@ def extract(repo):
 
     hashes = _parse(repo, "probables/hashes.py")
     for fn_name, tag in [("fnv_1a", "fnv64"), ("fnv_1a_32", "fnv32")]:
-        off, mult, prime, maskname = fnv_consts(_find_def(hashes, None, fn_name), fn_name)
-        if maskname not in consts:
-            raise ExtractError(f"{fn_name}: mask {maskname}")
-        facts[tag + "Offset"] = ("Nat", off)
-        facts[tag + "Mult"] = ("Nat", mult)
-        facts[tag + "Prime"] = ("Nat", prime)
-        facts[tag + "Mask"] = ("Nat", consts[maskname])
+
+        def fnv(fn_name=fn_name):
+            off, mult, prime, maskname = fnv_consts(_find_def(hashes, None, fn_name), fn_name)
+            if maskname not in consts:
+                raise ExtractError(f"{fn_name}: mask {maskname}")
+            return [("Nat", off), ("Nat", mult), ("Nat", prime), ("Nat", consts[maskname])]
+
+        attempt([tag + "Offset", tag + "Mult", tag + "Prime", tag + "Mask"], fnv)
 
     bloom = _parse(repo, "probables/blooms/bloom.py")
     cbf = _parse(repo, "probables/blooms/countingbloom.py")
@@ -229,71 +256,78 @@ def extract(repo):
     qf = _parse(repo, "probables/quotientfilter/quotientfilter.py")
 
     layouts = {
-        "bloomFooter": struct_fmt(bloom, "BloomFilter", "_FOOTER_STRUCT"),
-        "bloomFooterHex": struct_fmt(bloom, "BloomFilter", "_FOOTER_STRUCT_BE"),
-        "bloomFpr": struct_fmt(bloom, "BloomFilter", "_FPR_STRUCT"),
-        "bloomCell": struct_fmt(bloom, "BloomFilter", "_IMPT_STRUCT"),
-        "onDiskCount": struct_fmt(bloom, "BloomFilterOnDisk", "_EXPECTED_ELM_STRUCT"),
-        "onDiskUpdateOffset": struct_fmt(bloom, "BloomFilterOnDisk", "_UPDATE_OFFSET"),
-        "cbfCell": struct_fmt(cbf, "CountingBloomFilter", "_IMPT_STRUCT"),
-        "expFooter": struct_fmt(exp, "ExpandingBloomFilter", "__FOOTER_STRUCT"),
-        "expCount": struct_fmt(exp, "ExpandingBloomFilter", "__S_INT64_STRUCT"),
-        "cmsFooter": struct_fmt(cms, "CountMinSketch", "__FOOTER_STRUCT"),
-        "cmsCell": struct_fmt(cms, "CountMinSketch", "__BASIC_BIN_STRUCT"),
-        "cuckooFooter": struct_fmt(cko, "CuckooFilter", "_CUCKOO_FOOTER_STRUCT"),
-        "ccfFooter": struct_fmt(cck, "CountingCuckooFilter", "__COUNTING_CUCKOO_FOOTER_STRUCT"),
-        "ccfBin": struct_fmt(cck, "CountingCuckooFilter", "__BIN_STRUCT"),
+        "bloomFooter": (bloom, "BloomFilter", "_FOOTER_STRUCT"),
+        "bloomFooterHex": (bloom, "BloomFilter", "_FOOTER_STRUCT_BE"),
+        "bloomFpr": (bloom, "BloomFilter", "_FPR_STRUCT"),
+        "bloomCell": (bloom, "BloomFilter", "_IMPT_STRUCT"),
+        "onDiskCount": (bloom, "BloomFilterOnDisk", "_EXPECTED_ELM_STRUCT"),
+        "onDiskUpdateOffset": (bloom, "BloomFilterOnDisk", "_UPDATE_OFFSET"),
+        "cbfCell": (cbf, "CountingBloomFilter", "_IMPT_STRUCT"),
+        "expFooter": (exp, "ExpandingBloomFilter", "__FOOTER_STRUCT"),
+        "expCount": (exp, "ExpandingBloomFilter", "__S_INT64_STRUCT"),
+        "cmsFooter": (cms, "CountMinSketch", "__FOOTER_STRUCT"),
+        "cmsCell": (cms, "CountMinSketch", "__BASIC_BIN_STRUCT"),
+        "cuckooFooter": (cko, "CuckooFilter", "_CUCKOO_FOOTER_STRUCT"),
+        "ccfFooter": (cck, "CountingCuckooFilter", "__COUNTING_CUCKOO_FOOTER_STRUCT"),
+        "ccfBin": (cck, "CountingCuckooFilter", "__BIN_STRUCT"),
     }
-    single = _class_assign(cko, "CuckooFilter", "_CUCKOO_SINGLE_INT_C")
-    if not (isinstance(single, ast.Constant) and isinstance(single.value, str)):
-        raise ExtractError("CuckooFilter._CUCKOO_SINGLE_INT_C")
-    layouts["cuckooCell"] = single.value
-    for name, fmt in layouts.items():
-        facts[name] = ("Layout", fmt)
+    for name, (tree, cls, attr) in layouts.items():
+        attempt([name], lambda tree=tree, cls=cls, attr=attr: ("Layout", struct_fmt(tree, cls, attr)))
+
+    def cuckoo_cell():
+        single = _class_assign(cko, "CuckooFilter", "_CUCKOO_SINGLE_INT_C")
+        if not (isinstance(single, ast.Constant) and isinstance(single.value, str)):
+            raise ExtractError("CuckooFilter._CUCKOO_SINGLE_INT_C")
+        return ("Layout", single.value)
+
+    attempt(["cuckooCell"], cuckoo_cell)
 
     # array typecodes
-    tcs = self_attr_assign(_find_def(bloom, "BloomFilter", "__init__"), "_typecode")
-    bpe = self_attr_assign(_find_def(bloom, "BloomFilter", "__init__"), "_bits_per_elm")
-    if len(tcs) != 1 or len(bpe) != 1:
-        raise ExtractError("BloomFilter typecode / bits_per_elm")
-    facts["bloomTypecode"] = ("Layout", tcs[0])
-    facts["bloomBitsPerElm"] = ("Nat", int(bpe[0]))
-    if float(bpe[0]) != int(bpe[0]):
-        raise ExtractError("BloomFilter bits_per_elm not integral")
-    tcs = self_attr_assign(_find_def(cbf, "CountingBloomFilter", "_load_init"), "_typecode")
-    bpe = self_attr_assign(_find_def(cbf, "CountingBloomFilter", "_load_init"), "_bits_per_elm")
-    if len(tcs) != 1 or len(bpe) != 1 or float(bpe[0]) != int(bpe[0]):
-        raise ExtractError("CountingBloomFilter typecode / bits_per_elm")
-    facts["cbfTypecode"] = ("Layout", tcs[0])
-    facts["cbfBitsPerElm"] = ("Nat", int(bpe[0]))
+    def typecodes(tree, cls, fn, what):
+        tcs = self_attr_assign(_find_def(tree, cls, fn), "_typecode")
+        bpe = self_attr_assign(_find_def(tree, cls, fn), "_bits_per_elm")
+        if len(tcs) != 1 or len(bpe) != 1 or float(bpe[0]) != int(bpe[0]):
+            raise ExtractError(what + " typecode / bits_per_elm")
+        return [("Layout", tcs[0]), ("Nat", int(bpe[0]))]
+
+    attempt(["bloomTypecode", "bloomBitsPerElm"], lambda: typecodes(bloom, "BloomFilter", "__init__", "BloomFilter"))
+    attempt(["cbfTypecode", "cbfBitsPerElm"], lambda: typecodes(cbf, "CountingBloomFilter", "_load_init", "CountingBloomFilter"))
 
     # float literals of the sizing formulas
-    fl = float_literals(_find_def(bloom, "BloomFilter", "_get_optimized_params"))
-    # expected: 0.0, 1.0 of the range test, then ln(2)^2 and ln(2)
-    fl = [v for v in fl if v not in (0.0, 1.0)]
-    if len(fl) != 2:
-        raise ExtractError(f"_get_optimized_params float literals: {fl}")
-    facts["bloomLn2Sq"] = ("Float", fl[0])
-    facts["bloomLn2"] = ("Float", fl[1])
-    fl = [v for v in float_literals(_find_def(cms, "CountMinSketch", "__init__")) if v != 0.0]
-    if len(fl) != 1:
-        raise ExtractError(f"CountMinSketch.__init__ float literals: {fl}")
-    facts["cmsLn2"] = ("Float", fl[0])
+    def bloom_floats():
+        fl = float_literals(_find_def(bloom, "BloomFilter", "_get_optimized_params"))
+        # expected: 0.0, 1.0 of the range test, then ln(2)^2 and ln(2)
+        fl = [v for v in fl if v not in (0.0, 1.0)]
+        if len(fl) != 2:
+            raise ExtractError(f"_get_optimized_params float literals: {fl}")
+        return [("Float", fl[0]), ("Float", fl[1])]
+
+    attempt(["bloomLn2Sq", "bloomLn2"], bloom_floats)
+
+    def cms_float():
+        fl = [v for v in float_literals(_find_def(cms, "CountMinSketch", "__init__")) if v != 0.0]
+        if len(fl) != 1:
+            raise ExtractError(f"CountMinSketch.__init__ float literals: {fl}")
+        return ("Float", fl[0])
+
+    attempt(["cmsLn2"], cms_float)
 
     # guards
-    facts["expGrowCmp"] = ("Cmp", compare_op(_find_def(exp, "ExpandingBloomFilter", "__check_for_growth"), "elements_added", "est_elements", "expanding growth test"))
-    facts["rotReadyCmp"] = ("Cmp", compare_op(_find_def(exp, "RotatingBloomFilter", "__rotate_bloom_filter"), "elements_added", "estimated_elements", "rotating ready test"))
-    facts["rotRoomCmp"] = ("Cmp", compare_op(_find_def(exp, "RotatingBloomFilter", "__rotate_bloom_filter"), "current_queue_size", "_queue_size", "rotating room test"))
-    facts["cmsAddClampCmp"] = ("Cmp", compare_op(_find_def(cms, "CountMinSketch", "add_alt"), "val", "INT32_T_MAX", "cms add clamp"))
-    facts["cmsRemoveKeepCmp"] = ("Cmp", compare_op(_find_def(cms, "CountMinSketch", "remove_alt"), "val", "INT32_T_MIN", "cms remove clamp"))
-    facts["cmsTotalMaxCmp"] = ("Cmp", compare_op(_find_def(cms, "CountMinSketch", "add_alt"), "elements_added", "INT64_T_MAX", "cms total clamp"))
-    facts["cbfAddClampCmp"] = ("Cmp", compare_op(_find_def(cbf, "CountingBloomFilter", "add_alt"), "v", "UINT32_T_MAX", "cbf add clamp"))
-    facts["qfResizeCmp"] = ("Cmp", compare_op(_find_def(qf, "QuotientFilter", "add_alt"), "load_factor", "_max_load_factor", "qf auto-resize test"))
-    mlf = self_attr_assign(_find_def(qf, "QuotientFilter", "__set_params"), "_max_load_factor")
-    if len(mlf) != 1 or not isinstance(mlf[0], float):
-        raise ExtractError("QuotientFilter max load factor")
-    facts["qfMaxLoad"] = ("Float", mlf[0])
-    return facts
+    attempt(["expGrowCmp"], lambda: ("Cmp", compare_op(_find_def(exp, "ExpandingBloomFilter", "__check_for_growth"), "elements_added", "est_elements", "expanding growth test")))
+    attempt(["rotReadyCmp"], lambda: ("Cmp", compare_op(_find_def(exp, "RotatingBloomFilter", "__rotate_bloom_filter"), "elements_added", "estimated_elements", "rotating ready test")))
+    attempt(["rotRoomCmp"], lambda: ("Cmp", compare_op(_find_def(exp, "RotatingBloomFilter", "__rotate_bloom_filter"), "current_queue_size", "_queue_size", "rotating room test")))
+    attempt(["cmsAddClampCmp"], lambda: ("Cmp", compare_op(_find_def(cms, "CountMinSketch", "add_alt"), "val", "INT32_T_MAX", "cms add clamp")))
+    attempt(["cmsRemoveKeepCmp"], lambda: ("Cmp", compare_op(_find_def(cms, "CountMinSketch", "remove_alt"), "val", "INT32_T_MIN", "cms remove clamp")))
+    attempt(["cmsTotalMaxCmp"], lambda: ("Cmp", compare_op(_find_def(cms, "CountMinSketch", "add_alt"), "elements_added", "INT64_T_MAX", "cms total clamp")))
+    attempt(["cbfAddClampCmp"], lambda: ("Cmp", compare_op(_find_def(cbf, "CountingBloomFilter", "add_alt"), "v", "UINT32_T_MAX", "cbf add clamp")))
+    attempt(["qfResizeCmp"], lambda: ("Cmp", compare_op(_find_def(qf, "QuotientFilter", "add_alt"), "load_factor", "_max_load_factor", "qf auto-resize test")))
+    def qf_load():
+        mlf = self_attr_assign(_find_def(qf, "QuotientFilter", "__set_params"), "_max_load_factor")
+        if len(mlf) != 1 or not isinstance(mlf[0], float):
+            raise ExtractError("QuotientFilter max load factor")
+        return ("Float", mlf[0])
+
+    attempt(["qfMaxLoad"], qf_load)
 
 
 HEADER = """/-
@@ -306,9 +340,34 @@ namespace PyProb.Gen
 """
 
 
-def render(facts):
+def old_definitions(dest):
+    """name -> text of its definition(s) in the existing generated file (used for facts that could not be
+    extracted and that the property being checked does not depend on)"""
+    out = {}
+    try:
+        with open(dest, encoding="utf-8") as fh:
+            lines = fh.read().split("\n")
+    except OSError:
+        return out
+    import re as _re
+
+    for i, line in enumerate(lines):
+        m = _re.match(r"def (\w+?)(Bits|Num|Den)? :", line)
+        if m:
+            base = m.group(1) if m.group(2) else m.group(1)
+            out.setdefault(base, []).append(line)
+            if not m.group(2):
+                out.setdefault(m.group(1), [])
+    return out
+
+
+def render(facts, fallback=None):
     out = [HEADER]
-    for name in sorted(facts):
+    fallback = fallback or {}
+    for name in sorted(set(facts) | set(fallback)):
+        if name not in facts:
+            out.extend(fallback[name])
+            continue
         kind, val = facts[name]
         if kind == "Nat":
             out.append(f"def {name} : Nat := {val}")
@@ -331,8 +390,20 @@ def render(facts):
 
 
 def regenerate(repo, dest):
-    """returns (changed, text); raises ExtractError"""
-    text = render(extract(repo))
+    """returns (changed, text, missing); raises ExtractError when nothing usable can be generated.
+    Facts that cannot be found keep their previous definition in the generated file (so the models
+    still build) and are returned in `missing` — whether that breaks the tie of a property is decided
+    by the caller from the facts that property depends on."""
+    facts, missing = extract(repo)
+    fallback = {}
+    if missing:
+        old = old_definitions(dest)
+        for name in missing:
+            if name in old and old[name]:
+                fallback[name] = old[name]
+            else:
+                raise ExtractError(f"{name}: {missing[name]} (and no previous definition to fall back on)")
+    text = render(facts, fallback)
     old = None
     if os.path.exists(dest):
         with open(dest, encoding="utf-8") as fh:
@@ -342,8 +413,8 @@ def regenerate(repo, dest):
         with open(tmp, "w", encoding="utf-8") as fh:
             fh.write(text)
         os.replace(tmp, dest)
-        return True, text
-    return False, text
+        return True, text, missing
+    return False, text, missing
 
 
 if __name__ == "__main__":
@@ -351,8 +422,10 @@ if __name__ == "__main__":
     here = os.path.dirname(os.path.abspath(__file__))
     dest = os.path.join(here, "..", "lean", "PyProb", "Generated", "Repo.lean")
     try:
-        changed, _ = regenerate(repo, dest)
+        changed, _, missing = regenerate(repo, dest)
     except ExtractError as exc:
         print(f"extract_facts: BROKEN TIE: {exc}")
         sys.exit(3)
+    for name, why in missing.items():
+        print(f"extract_facts: could not extract {name}: {why} (previous definition kept)")
     print(f"extract_facts: {'rewrote' if changed else 'unchanged'} {os.path.normpath(dest)}")
